@@ -53,7 +53,10 @@ def run(patch, prop):
 
 def main():
     rows = []
+    only = [a for a in sys.argv[1:] if not a.startswith("--")]
     for name in sorted(os.listdir(SEEDED)):
+        if only and name not in only:
+            continue
         d = os.path.join(SEEDED, name)
         if not os.path.isdir(d):
             continue
@@ -83,11 +86,17 @@ def main():
         meta["missed_by"] = sorted(p for p, r in res.items() if r["status"] == "missed")
         json.dump(meta, open(meta_path, "w"), indent=1)
         rows.append((name, use, res))
+    # the table is rebuilt from every meta.json (so that partial runs keep the other rows)
     with open(os.path.join(SEEDED, "MATRIX.md"), "w") as f:
         f.write("# Seeded changes x checks (quick tier, VERIF_SEED=1)\n\n| seeded change | patch | check: result [first bucket] |\n|---|---|---|\n")
-        for name, use, res in rows:
+        for name in sorted(os.listdir(SEEDED)):
+            mp = os.path.join(SEEDED, name, "meta.json")
+            if not os.path.exists(mp):
+                continue
+            meta = json.load(open(mp))
+            res = meta.get("checks_run", {})
             cells = "; ".join("%s: %s%s" % (p, r["status"], (" [" + r["buckets"][0] + "]") if r["buckets"] else "") for p, r in res.items())
-            f.write("| %s | %s | %s |\n" % (name, os.path.basename(use), cells))
+            f.write("| %s | %s | %s |\n" % (name, meta.get("patch_used", "patch.diff"), cells))
     print("written", os.path.join(SEEDED, "MATRIX.md"))
 
 
